@@ -14,9 +14,10 @@ import DitModel.Drv.Maxent
 import DitModel.Drv.AuxJoint
 import DitModel.Drv.Examples
 import DitModel.Drv.SigAlg
+import DitModel.Drv.SetPart
 open Dit Dit.Drv
 
-def handlers : List (String × (J → Option J)) := basicHandlers ++ simplexHandlers ++ infoHandlers ++ opsHandlers ++ constrHandlers ++ divergeHandlers ++ pidHandlers ++ channelHandlers ++ meetHandlers ++ maxentHandlers ++ auxHandlers ++ exampleHandlers ++ sigalgHandlers
+def handlers : List (String × (J → Option J)) := basicHandlers ++ simplexHandlers ++ infoHandlers ++ opsHandlers ++ constrHandlers ++ divergeHandlers ++ pidHandlers ++ channelHandlers ++ meetHandlers ++ maxentHandlers ++ auxHandlers ++ exampleHandlers ++ sigalgHandlers ++ setpartHandlers
 
 def answer (line : String) : String :=
   let line := line.trimAscii.toString
